@@ -515,6 +515,13 @@ Qed.
 Lemma decode_digits4' K s : decode K s = digits4 K s.
 Proof. unfold decode, digits4. apply map_ext. intro p. apply lane_div. Qed.
 
+(* the same with the payload read as base-4 digits (the form used by the list-level history step) *)
+Corollary l_set_slice_mut_digits x len pos n value : l_inv x -> l_len x = Some len ->
+  (1 <= n <= 32)%nat -> (pos + n <= len)%nat -> value < two64 ->
+  exists x', l_set_slice_mut x pos n value = Some x' /\ l_size x' = l_size x /\ l_inv x' /\ l_len x' = Some len /\
+             l_abs x' = splice pos (firstn n (digits4 32 value)) (l_abs x).
+Proof. rewrite <- decode_digits4'. apply l_set_slice_mut_spec. Qed.
+
 (* guards of a history step (what the API documents): positions inside the sequence, bases < 4, runs of 1..32
    bases inside the sequence, a u64 payload *)
 Definition lop_ok (len : nat) (o : lop) : bool :=
